@@ -10,6 +10,53 @@ import vlib
 from checks.common import run_harness
 
 
+def configured(ctx, res, hooks):
+    """The same opens in processes started with a configuration file naming the hook (what start-up makes of it runs)."""
+    import concurrent.futures, json, os, random, subprocess
+    binary = ctx.go_test_binary("ui")
+    rnd = random.Random(ctx.seed + 5)
+    padded = [h for h in hooks if any(a != a.strip() or a == "" for a in h)]
+    plain = [h for h in hooks if h not in padded]
+    rnd.shuffle(padded)
+    rnd.shuffle(plain)
+    chosen = padded[:12 if ctx.quick else 120] + plain[:6 if ctx.quick else 60]
+
+    def one(idx, args):
+        d = os.path.join(ctx.scratch, "hookcfg-%d" % idx)
+        os.makedirs(os.path.join(d, "servitor"), exist_ok=True)
+        hook = [binary, "--verif-hook"] + list(args)
+        with open(os.path.join(d, "servitor", "config.toml"), "w") as f:
+            f.write("[media]\nhook = [%s]\n" % ", ".join(json.dumps(a) for a in hook))
+        with open(os.path.join(d, "in.json"), "w") as f:
+            json.dump({"hooks": [list(args)]}, f)
+        out = os.path.join(d, "trace.ndjson")
+        env = ctx.go_env({"VERIF_OUT": out, "VERIF_IN": os.path.join(d, "in.json"), "VERIF_HOOK_FROM_CONFIG": "1"})
+        env["XDG_CONFIG_HOME"] = d
+        env["TMPDIR"] = d
+        try:
+            p = subprocess.run([binary, "-test.run", "^TestVerifHook$", "-test.timeout", "120s"], cwd=d, env=env,
+                               stdout=subprocess.PIPE, stderr=subprocess.STDOUT, timeout=150)
+            rc, txt = p.returncode, p.stdout.decode("utf-8", "replace")
+        except subprocess.TimeoutExpired:
+            rc, txt = -9, "timeout"
+        evs = [e for e in (vlib.read_ndjson(out) if os.path.exists(out) else []) if e["ev"] == "hook"]
+        if rc != 0 and not evs:
+            if "failed to parse" in txt or "is invalid" in txt:
+                return [{"ev": "hook", "hook": hook, "link": "", "mt": {"essence": "", "supertype": "", "subtype": ""}, "calls": [], "keys": "",
+                         "panic": True, "what": "start-up refused a hook that names a program: " + txt[-200:]}]
+            raise vlib.Inconclusive("configured-hook probe failed: " + txt[-600:])
+        for e in evs:
+            e["configured"] = True
+        return evs
+
+    out = []
+    with concurrent.futures.ThreadPoolExecutor(max_workers=8) as ex:
+        for evs in ex.map(lambda t: one(*t), enumerate(chosen)):
+            out += evs
+    res.extra["hook_configurations_through_config_file"] = len(chosen)
+    return out
+
+
 def run(ctx):
     res = vlib.Result(ctx, "model_checking")
     q = ctx.quick
@@ -27,11 +74,12 @@ def run(ctx):
         raise vlib.Inconclusive("hook generator produced %d configurations" % len(hooks))
     evs, rc, txt = run_harness(ctx, "ui", "TestVerifHook", {"hooks": hooks}, timeout=3000)
     calls = [e for e in evs if e["ev"] == "hook"]
+    calls += configured(ctx, res, hooks)
     bad, r2 = vlib.judge(ctx, "T_Hook", "T_Hook.cfg", calls)
     res.traces = len(calls)
     for e in calls:
         res.case([e["hook"][2:], e["link"], e["mt"]])
-    res.rule = ("a case is one external open through the real UI (number+Enter on each of 18 body links / attachments, o, p, b) under "
+    res.rule = ("a case is one external open through the real UI (number+Enter on each of 22 body links / attachments, o, p, b), in-process and in processes started with a configuration file naming the hook, under "
                 "one hook configuration; the hook program is the harness binary itself, recording argv and stdin; judged by T_Hook "
                 "(argv = Subst(hook, link, media type), stdin = link iff no argument is exactly %url); distinct = distinct (hook "
                 "arguments, link, media type)")
@@ -40,7 +88,7 @@ def run(ctx):
                     "stdin": e["calls"][0]["stdin"] if e["calls"] else None})
     res.extra["hook_configurations_from_tlc"] = len(hooks)
     res.assumptions = ["the program position is fixed to the recorder binary (a placeholder there is only explored in the model)",
-                       "the link/media type an item offers is read through the same accessors the UI uses (their correctness is C12's)"]
+                       "links are compared with the address as the served document gives it; media types with the document where it settles them (declared type, none, Image without type), otherwise with what the item's accessor offers"]
     for b in bad:
         e = calls[b["line"] - 1]
         sig = {"monitor": "T_Hook", "why": b["why"]}
